@@ -621,7 +621,20 @@ func (env *c08Env) run(c *c08Case) {
 		env.t.Fatal(err)
 	}
 	st.RewriteSender(ctx, sd.from)
-	err = st.RewriteBody(ctx, &hdr, buffer.MemoryBuffer{Slice: c.body})
+	var bodyBuf buffer.Buffer = buffer.MemoryBuffer{Slice: c.body}
+	if len(c.body) > 32*1024 {
+		// large bodies are file-backed in maddy: the signer then reads them in 32 KiB chunks
+		f, ferr := os.CreateTemp("", "verif-c08-body-")
+		if ferr != nil {
+			env.t.Fatal(ferr)
+		}
+		f.Write(c.body)
+		f.Close()
+		defer os.Remove(f.Name())
+		bodyBuf = buffer.FileBuffer{Path: f.Name(), LenHint: len(c.body)}
+		out.Stat("case.body.file-backed")
+	}
+	err = st.RewriteBody(ctx, &hdr, bodyBuf)
 	if err != nil {
 		out.Stat("sign.error:" + c08ErrClass(err))
 		return
@@ -782,6 +795,8 @@ func (env *c08Env) sigparse(r *vh.Rng, payload []byte, algo string) {
 	vs, err := msgdkim.VerifyWithOptions(bytes.NewReader(mp), &msgdkim.VerifyOptions{LookupTXT: env.lookupTXT(algo)})
 	class := "view"
 	switch {
+	case err != nil && strings.Contains(err.Error(), "failed to read header"):
+		class = "no-header-end"
 	case err != nil:
 		class = "error:" + err.Error()
 	case len(vs) == 0:
@@ -1152,9 +1167,30 @@ func TestVerifC08Wire(t *testing.T) {
 			out.Stat("dot.changed")
 		}
 	}
+	// the next hop's reader alone, on octets no dot writer produces (always terminated, so the server answers)
+	undot := func(wire []byte) {
+		op := "C08 undot " + vh.HexBytes(wire)
+		got, err := c08RawData(port, srv, wire)
+		if err != nil {
+			out.Corr(op, "none")
+			out.Stat("undot.none")
+			return
+		}
+		out.Corr(op, fmt.Sprintf("%d:%s", len(got), vc08.Sha(got)))
+		out.Stat("undot.ok")
+	}
 	if c08Replay(t, "C08 gmread ", func(op string) { gmread(vh.UnhexBytes(strings.Fields(op)[2])) }) {
 		c08Replay(t, "C08 dot ", func(op string) { dot(vh.UnhexBytes(strings.Fields(op)[2])) })
+		c08Replay(t, "C08 undot ", func(op string) { undot(vh.UnhexBytes(strings.Fields(op)[2])) })
 		return
+	}
+	for _, s := range []string{"", ".", "\r", "\n", ".\r\n", "a\r\r\n", "\r\n.\r\n", "..", ".\rX\r\n", "a\n.b\n", "x\r", "\r\r\r\n.", ": v\r\n\r\n", " a: b\r\n\r\n"} {
+		dot([]byte(s))
+		gmread([]byte(s))
+		if strings.HasSuffix(s, "\r") {
+			s += "x" // CR CR LF is not a line end for the reader: the end marker would be missed (no answer)
+		}
+		undot([]byte(s + "\r\n.\r\n"))
 	}
 	r := vh.NewRng(vh.Seed() + 804)
 	n := vh.N(600)
@@ -1168,8 +1204,29 @@ func TestVerifC08Wire(t *testing.T) {
 			out.Stat("wire.conformant")
 		}
 		gmread(msg)
+		if bytes.Contains(msg, []byte("\n:")) || bytes.HasPrefix(msg, []byte(":")) {
+			out.Stat("gmread.input-with-empty-name")
+		}
 		if i%3 == 0 {
 			dot(msg)
+		}
+		if i%3 == 1 {
+			// a wire nobody stuffed: lines starting with dots, ".\r" not followed by LF, bare CR / LF
+			w := append([]byte{}, msg...)
+			for k := 0; k < 1+r.Intn(4) && len(w) > 0; k++ {
+				j := r.Intn(len(w))
+				ins := r.Pick(".", "\r\n.", "\r\n.\rX", "\r\n..", "\r", "\r\r\n.", "\n.")
+				w = append(w[:j:j], append([]byte(ins), w[j:]...)...)
+			}
+			// never contains the end marker before the end: break every CRLF "." CRLF
+			w = bytes.ReplaceAll(w, []byte("\r\n.\r\n"), []byte("\r\n.x\r\n"))
+			if bytes.HasPrefix(w, []byte(".\r\n")) {
+				w = append([]byte("x"), w...)
+			}
+			if bytes.HasSuffix(w, []byte("\r")) {
+				w = append(w, 'x')
+			}
+			undot(append(w, []byte("\r\n.\r\n")...))
 		}
 	}
 }
